@@ -122,6 +122,10 @@ def project(fig, path, names, all_axes=False):
     P["margins"] = "none" if (sp.left, sp.right, sp.bottom, sp.top) == (0, 1, 0, 1) else "default"
     P["annotations"] = "shown" if len(ax0.texts) > 0 else "absent"
     P["afs"] = round(float(ax0.texts[0].get_fontsize()), 3) if ax0.texts else None
+    nums = [len(t.get_text().split()) for t in ax0.texts]
+    P["annotationfields"] = (nums[0] if nums and all(n == nums[0] for n in nums) else (tuple(nums) if nums else None))
+    labels = [l.get_label() for l in ax0.get_lines()]
+    P["obsleg"] = tuple(lb for lb in labels if not lb.startswith("_") and lb not in names and lb != "ideal")
     P["format"] = file_format(path)
     P["pixels"] = png_size(path)
     P["dpi"] = getattr(fig, "_verif_saved_dpi", None)
@@ -182,6 +186,13 @@ def owned_ok(prop, expected, P, P0):
             return None if got is not None and all(abs(a - b) < 1e-6 for a, b in zip(got, e)) else "figsize: expected %r inches, figure has %r" % (e, got)
         if prop == "dpi":
             return None if got is not None and abs(float(got) - float(expected)) < 1e-9 else "dpi: image written at %r dpi, expected %r" % (got, expected)
+        if prop in ("xticklabels", "yticklabels"):
+            e = tuple(expected.split("|"))
+            return None if got == e else "%s: expected %r, axis shows %r" % (prop, e, got)
+        if prop == "annotationfields":
+            return None if got == int(expected) else "-af: expected %s numbers per annotation, annotations have %r" % (expected, got)
+        if prop == "obsleg":
+            return None if got is not None and expected in got else "-obsleg: expected an observation series labelled %r, labels are %r" % (expected, got)
         if prop in ("left", "right", "top", "bottom"):
             return None if got is not None and abs(float(got) - float(expected)) < 1e-6 else "%s: expected %r, subplot parameters have %r" % (prop, expected, got)
     except (ValueError, TypeError) as e:
